@@ -1583,3 +1583,42 @@ theorem batchStep2_single {fuel : Nat} {c c' : Cache} {pd : PD} {cur e s0 : Byte
               exact ⟨l, i2 l hl', hlc⟩
 
 end CGV.Region
+
+namespace CGV.Region
+open CGV
+
+/-! ## findLastRegion (/repo f67ac70) -/
+
+theorem findLastLoop_spec {fuel : Nat} {c c' : Cache} {pd : PD} {s : Bytes} {e : Entry}
+    (h : findLastLoop fuel c pd s = (c', .ok e)) : e.r.endKey.isEmpty = true := by
+  induction fuel generalizing c s with
+  | zero => simp [findLastLoop] at h
+  | succ n ih =>
+    simp only [findLastLoop] at h
+    split at h
+    · simp at h
+    · rename_i c1 rs _
+      split at h
+      · simp at h
+      · rename_i last _
+        by_cases hl : last.r.endKey.isEmpty = true
+        · simp only [hl, if_true, Prod.mk.injEq, Except.ok.injEq] at h
+          rw [← h.2]; exact hl
+        · simp only [hl, Bool.false_eq_true, if_false] at h
+          exact ih h
+
+theorem findLastRegion_spec {fuel : Nat} {c c' : Cache} {pd : PD} {e : Entry}
+    (h : findLastRegion fuel c pd = (c', .ok e)) : e.r.endKey.isEmpty = true := by
+  unfold findLastRegion at h
+  split at h
+  · rename_i e0 _
+    by_cases hc : (e0.r.endKey.isEmpty && !e0.reload && e0.valid) = true
+    · simp only [hc, if_true, Prod.mk.injEq, Except.ok.injEq] at h
+      rw [← h.2]
+      simp only [Bool.and_eq_true] at hc
+      exact hc.1.1
+    · simp only [hc, Bool.false_eq_true, if_false] at h
+      exact findLastLoop_spec h
+  · exact findLastLoop_spec h
+
+end CGV.Region
